@@ -668,6 +668,38 @@ func init() {
 				}
 				c10Strict(c, encStats, a, enc, tag, map[int64]bool{-75100: true})
 			}
+			// a claims type derived from a derived profile's claims (two levels of embedding)
+			{
+				a := genValidOpt(c, kindP2, false, true)
+				a.Canon, a.Profile = ExtP2Name, sp(ExtP2Name)
+				xi, err := buildBySetters(a)
+				if err != nil {
+					return
+				}
+				v, e7 := "acme", int64(7)
+				t2 := ExtTwoLevelClaims{ExtP2Claims: *(xi.(*ExtP2Claims)), Vendor: &v}
+				t2.Extra = &e7
+				enc, err := extEM.Marshal(t2)
+				encStats.Trans.Add(1)
+				if err != nil {
+					c.Failf("C10:encode-error:two-level-embedding", "%v", err)
+					return
+				}
+				c10Strict(c, encStats, a, enc, "P2:two-level-embedding", map[int64]bool{-75100: true, -75400: true})
+				if n, perr := mcbor.DecodeAll(enc); perr == nil && n.K == mcbor.Map {
+					seen := map[int64]bool{}
+					for _, p := range n.Pairs {
+						k, _ := p[0].Int()
+						seen[k] = true
+					}
+					if !seen[-75400] || !seen[-75100] {
+						c.Failf("C10:missing-key:two-level-embedding", "the outer claims are missing from the map (-75100 present=%v, -75400 present=%v)", seen[-75100], seen[-75400])
+					}
+					if seen[-75401] {
+						c.Failf("C10:unexpected-key:two-level-embedding:-75401", "an unset omitempty claim was emitted")
+					}
+				}
+			}
 		}, nil
 	}
 	// C10/C11: the slice handed to SetSoftwareComponents stays the caller's: reusing it afterwards does not change what is
@@ -1243,6 +1275,38 @@ func init() {
 			}, nil
 		}
 	}
+	// C12: a profile-1 based claims type that identifies its profile through its own field under key 265
+	Scenarios["c12.p1-with-own-profile-key"] = func() (choice.Scenario, func() any) {
+		return func(c *choice.Ctx) {
+			a := genValidOpt(c, kindP1, false, true)
+			a.Canon, a.Profile = ExtP1With265Name, nil
+			x, err := buildBySetters(a)
+			if err != nil {
+				if err != errNotRepresentable {
+					c.Failf("C12:p1-with-own-profile-key:build", "%v", err)
+				}
+				return
+			}
+			if x.Validate() != nil {
+				return
+			}
+			encStats.StateStr("p1-265" + a.String())
+			encStats.Trans.Add(2)
+			js, err := psatoken.EncodeClaimsToJSON(x)
+			if err != nil {
+				c.Failf("C12:encode-error:p1-with-own-profile-key", "%v", err)
+				return
+			}
+			y, err := psatoken.DecodeClaimsFromJSON(js)
+			if err != nil {
+				c.Failf("C12:decode-error:p1-with-own-profile-key", "own JSON of the registered profile does not decode: %v\n%s", err, js)
+				return
+			}
+			if g1, g2 := getterVector(x), getterVector(y); g1 != g2 || fmt.Sprintf("%T", y) != fmt.Sprintf("%T", x) {
+				c.Failf("C12:identity:p1-with-own-profile-key", "%T %s\n%T %s", x, g1, y, g2)
+			}
+		}, nil
+	}
 	// C12: registered profiles whose NAME contains characters the JSON encoder escapes
 	Scenarios["c12.escaped-profile-name"] = func() (choice.Scenario, func() any) {
 		names := []string{"http://example.com/psa?variant=a&rev=2", "http://example.com/psa/it's", "http://example.com/psa?q=<1>"}
@@ -1324,6 +1388,7 @@ func init() {
 				exploreChoiceOpts(r, "c12.same-name-claim-types", 1, dl, 1)
 				exploreChoice(r, "c12.shadowing-profile", 2, dl)
 				exploreChoice(r, "c12.odd-fields-profile", 2, dl)
+				exploreChoice(r, "c12.p1-with-own-profile-key", 2, dl)
 			} else {
 				if prop == "C09" {
 					exploreChoice(r, "c09.ext-wide", -1, dl)
